@@ -37,6 +37,7 @@ func runWPath(args []string) (map[string]any, error) {
 			}
 			// TLC plan: {"init":{"<k>":"<v>",...},"level":n,"req":[...],"big":bool,"ops":[...]}
 			var tp struct {
+				Uni   string     `json:"uni"`
 				Init  [][2]any   `json:"init"`
 				Level int        `json:"level"`
 				Req   []int      `json:"req"`
@@ -53,8 +54,17 @@ func runWPath(args []string) (map[string]any, error) {
 					p.Req = append(p.Req, 100+i)
 				}
 			}
-			tid++
 			nTLC++
+			if tp.Uni == "shape" {
+				// structural scope: the same plan over both placements of the 4-nibble window
+				for _, u := range []string{"head", "tail"} {
+					tid++
+					p.Uni = u
+					exec.RunPath(w, in, st, tid, p)
+				}
+				continue
+			}
+			tid++
 			exec.RunPath(w, in, st, tid, p)
 		}
 		f.Close()
